@@ -168,6 +168,22 @@ func VerifyInclusion(proof *InclusionProof, digest, root [sha256.Size]byte) bool
 		return false
 	}
 
+	if proof.Leaf < 0 || proof.Leaf >= proof.Width {
+		return false
+	}
+
+	// the number of terms must match the path of the leaf in a tree of the given width
+	nTerms := 0
+	for i, r := proof.Leaf, proof.Width-1; r > 0; i, r = i/2, r/2 {
+		// the right-most node of a level with an odd number of nodes has no sibling
+		if i != r || i%2 == 1 {
+			nTerms++
+		}
+	}
+	if len(proof.Terms) != nTerms {
+		return false
+	}
+
 	leaf := [1 + sha256.Size]byte{LeafPrefix}
 	copy(leaf[1:], digest[:])
 
